@@ -843,26 +843,37 @@ func (a AssignInstr) InstrString() string {
 }
 
 func (a AssignInstr) Execute(env *Zlisp) error {
+	rhs, err := a.assign(env)
+	if err != nil {
+		return err
+	}
+	// like def and set, an assignment through a selector is an
+	// expression: leave the assigned value on the stack.
+	env.datastack.PushExpr(rhs)
+	return nil
+}
+
+func (a AssignInstr) assign(env *Zlisp) (Sexp, error) {
 	env.pc++
 	rhs, err := env.datastack.PopExpr()
 	if err != nil {
-		return err
+		return nil, err
 	}
 	rhs, err = env.RValue(rhs)
 	if err != nil {
-		return err
+		return nil, err
 	}
 	lhs, err := env.datastack.PopExpr()
 	if err != nil {
-		return err
+		return nil, err
 	}
 	switch x := lhs.(type) {
 	case *SexpSymbol:
-		return env.LexicalBindSymbol(x, rhs)
+		return rhs, env.LexicalBindSymbol(x, rhs)
 	case Selector:
 		Q("AssignInstr: I see lhs is Selector")
 		err := x.AssignToSelection(env, rhs)
-		return err
+		return rhs, err
 	case *SexpArray:
 		switch rhsArray := rhs.(type) {
 		case *SexpArray:
@@ -871,27 +882,27 @@ func (a AssignInstr) Execute(env *Zlisp) error {
 			nRhs := len(rhsArray.Val)
 			nLhs := len(x.Val)
 			if nRhs != nLhs {
-				return fmt.Errorf("assignment count mismatch %v != %v", nLhs, nRhs)
+				return nil, fmt.Errorf("assignment count mismatch %v != %v", nLhs, nRhs)
 			}
 			for i := range x.Val {
 				switch sym := x.Val[i].(type) {
 				case *SexpSymbol:
 					err = env.LexicalBindSymbol(sym, rhsArray.Val[i])
 					if err != nil {
-						return err
+						return nil, err
 					}
 				default:
-					return fmt.Errorf("assignment error: left-hand-side element %v needs to be a symbol but"+
+					return nil, fmt.Errorf("assignment error: left-hand-side element %v needs to be a symbol but"+
 						" we found %T", i, x.Val[i])
 				}
 			}
-			return nil
+			return rhs, nil
 		default:
-			return fmt.Errorf("AssignInstr: don't know how to assign rhs %T `%v` to lhs %T `%v`",
+			return nil, fmt.Errorf("AssignInstr: don't know how to assign rhs %T `%v` to lhs %T `%v`",
 				rhs, rhs.SexpString(nil), lhs, lhs.SexpString(nil))
 		}
 	}
-	return fmt.Errorf("AssignInstr: don't know how to assign to lhs %T", lhs)
+	return nil, fmt.Errorf("AssignInstr: don't know how to assign to lhs %T", lhs)
 }
 
 // PopScopeTransferToDataStackInstr is used to wrap up a package
